@@ -170,7 +170,7 @@ def simulate(spec):
             if op.get("op") in ("zero", "elev", "fire"):
                 w = b.cache.get(("weapons", world["shots"][op["shot"]]["weapon"]))
                 ze = getattr(w, "zero_elevation", None)
-                post[t.idx][i] = {"zero": fhex(ze.raw_value) if hasattr(ze, "raw_value") else repr(ze)}
+                post[t.idx][i] = {"zero": float(ze.raw_value).hex() if hasattr(ze, "raw_value") else repr(ze)}
             elif op.get("op") == "powder":
                 a = b.cache.get(("ammos", op["ammo"]))
                 tm = getattr(a, "temp_modifier", None)
